@@ -48,3 +48,41 @@ Example C18_empty_content : extract (of_string ""%string) = RxEmptyContent.
 Proof. vm_compute. reflexivity. Qed.
 Example C18_bad_start : extract (of_string "a/"%string) = RxBadStart.
 Proof. vm_compute. reflexivity. Qed.
+
+(* Property C18 (enum rule half) — comments in an enum rule are ignored: they are blanks.
+   [EnumProofs.decomment bs] replaces every byte of a // comment (the line break that ends it included)
+   and of a /* */ comment by a space; it is Some when no comment stands before the opening bracket
+   (the library refuses that: ErrEnumArrayExpected), every '/' outside strings begins a comment and
+   every block comment is closed (an open one at the end is refused: ErrUnexpectedEOF).  If the text
+   without comments is accepted, the text with them is accepted, and the value, item and array events
+   ([EnumProofs.keep]: LiteralBegin/End, ArrayItemBegin/End, ArrayBegin/End) are the same, spans included:
+   Values() reads the same literals in the same order.  Proof in Enum/EnumProofs.v (section 8).
+   Not proved here: the byte-level equality of the literal slices of the two texts as a theorem (the
+   bytes of a literal are never comment bytes; shown on the example below) and hence enum_check = VOk
+   for the text with comments as a theorem. *)
+From JS Require Enum.EnumScanner Enum.EnumProofs.
+
+Theorem C18_enum_comments_are_ignored : forall bs bs' evs',
+  EnumProofs.decomment bs = Some bs' ->
+  EnumScanner.scan false bs' = (evs', EnumScanner.Eos) ->
+  exists evs, EnumScanner.scan false bs = (evs, EnumScanner.Eos) /\
+              filter EnumProofs.keep evs = filter EnumProofs.keep evs'.
+Proof. exact EnumProofs.enum_comments_are_blanks. Qed.
+Print Assumptions C18_enum_comments_are_ignored.
+
+(* a comment in every gap of a 4-value rule (number, string containing a comment opener, true, null; LF and
+   CR LF endings, an empty comment, a two-line block comment, a last comment without a line break):
+   Check accepts it and the literals are the written ones, in source order; the same for the blanked text *)
+Example C18_enum_comments_example :
+  EnumScanner.enum_check EnumProofs.comments_example = EnumScanner.VOk /\
+  EnumProofs.literal_tokens EnumProofs.comments_example (fst (EnumScanner.scan false EnumProofs.comments_example)) =
+    [Some [x31]; Some [x22; x78; x2f; x2a; x79; x22]; Some [x74; x72; x75; x65]; Some [x6e; x75; x6c; x6c]].
+Proof. exact (conj EnumProofs.enum_comments_example_check EnumProofs.enum_comments_example_tokens). Qed.
+Example C18_enum_comments_example_blanked :
+  match EnumProofs.decomment EnumProofs.comments_example with
+  | Some bs' => EnumScanner.enum_check bs' = EnumScanner.VOk /\
+     EnumProofs.literal_tokens bs' (fst (EnumScanner.scan false bs')) =
+     EnumProofs.literal_tokens EnumProofs.comments_example (fst (EnumScanner.scan false EnumProofs.comments_example))
+  | None => False
+  end.
+Proof. exact EnumProofs.enum_comments_example_blanked. Qed.
